@@ -41,6 +41,17 @@ Round 4
   (`Wrap.multi`, `Wrap.ptrMulti`): `unmarshalInputsToField` hands ALL values over, before
   `inputValue[0]` is touched (so an empty value list does not panic there).
 
+Round 5
+* `Elem.named k`: a NAMED type of builtin kind (int, uint, float, bool, string) that implements
+  `BindUnmarshaler` / `TextUnmarshaler`.  Everywhere in the struct binder — scalar, `*T`, and every
+  ELEMENT of `[]T`, `[]*T`, `*[]T` (`setWithProperType` asks `unmarshalInputToField` first, for every
+  kind) — the text is converted by the type's own method, never by strconv, and an empty text is
+  handed to the method as it is (no `"0"` default).  The method is an external parser (`Ext` key
+  `200 + k`, answers computed by the harness by calling the method on a fresh value).
+* the three constructors (`Ctor`, `newBinder`): `QueryParamsBinder`, `PathParamsBinder`,
+  `FormFieldBinder` all start with no errors and fail-fast ON; a chain may run without any
+  `FailFast` call (wire case 3).
+
 Platform assumption: `int`/`uint` are 64 bits (`strconv.IntSize = 64`).
 -/
 namespace C08
@@ -240,6 +251,7 @@ inductive Elem where
   | str
   | unm          -- BindUnmarshaler / TextUnmarshaler of the harness: stores the text, fails iff it starts with `!`
   | time (layout : Nat)   -- Time / MustTime / Times / MustTimes with the case's layout number `layout`
+  | named (k : Nat)       -- named type of builtin kind with its own UnmarshalParam / UnmarshalText (struct binder)
 deriving DecidableEq, Repr, Inhabited
 
 def parseElem (ext : Ext) : Elem → List Char → Option SVal
@@ -250,6 +262,13 @@ def parseElem (ext : Ext) : Elem → List Char → Option SVal
   | .str, s => some (.opq s)
   | .unm, s => if s.head? = some '!' then none else some (.opq s)
   | .time l, s => (ext (100 + l) s).map .opq
+  | .named k, s => (ext (200 + k) s).map .opq
+
+/-- canonical zero value of the harness's named types: 0 hex id, 1 percent, 2 on/off flag, 3 word, 4 ratio -/
+def namedZero : Nat → List Char
+  | 2 => ['f','a','l','s','e']
+  | 3 => []
+  | _ => ['0']
 
 def zeroOf : Elem → SVal
   | .num _ => .int 0
@@ -259,6 +278,7 @@ def zeroOf : Elem → SVal
   | .str => .opq []
   | .unm => .opq []
   | .time _ => .opq []
+  | .named k => .opq (namedZero k)
 
 /-! ## ValueBinder -/
 
@@ -268,6 +288,20 @@ structure VB where
 deriving DecidableEq, Repr, Inhabited
 
 def VB.addErr (b : VB) : VB := { b with errors := b.errors + 1 }
+
+/-- the public constructors of a value binder -/
+inductive Ctor where
+  | query     -- QueryParamsBinder
+  | path      -- PathParamsBinder
+  | form      -- FormFieldBinder
+deriving DecidableEq, Repr, Inhabited
+
+/-- what each constructor returns: no errors, fail-fast enabled ("Enabled by default") — one line per
+    constructor, as in the code -/
+def newBinder : Ctor → VB
+  | .query => ⟨0, true⟩
+  | .path => ⟨0, true⟩
+  | .form => ⟨0, true⟩
 
 /-- `b.failFast && b.errors != nil` -/
 def VB.frozen (b : VB) : Bool := b.failFast && b.errors != 0
@@ -572,6 +606,7 @@ def pElem (ctx : Ctx) : P Elem := do
   | 8, .vbScalar m => pure (.num (.vbByte m))
   | 9, .vbScalar _ => pure (.time t)
   | 9, .vbSlice => pure (.time t)
+  | 10, .struct => pure (.named t)
   | _, _ => failure
 
 def pSVal : P SVal := do
@@ -676,6 +711,7 @@ def extOf (t : List (Nat × List Char × Option (List Char))) : Ext := fun k s =
 
 inductive Case where
   | vb (failFast : Bool) (ops : List Op)
+  | vbDefault (c : Ctor) (ops : List Op)      -- fresh binder of that constructor, no FailFast call
   | struct (fields : List Field)
   | struct2 (fields : List (Field × Option (List (List Char))))
 
@@ -687,6 +723,14 @@ def pCase : P (List (Nat × List Char × Option (List Char)) × Case) := do
     let ff ← bool
     let ops ← list pOp
     pure (t, .vb ff ops)
+  | 3 => do
+    let c ← nat
+    let ops ← list pOp
+    match c with
+    | 0 => pure (t, .vbDefault .query ops)
+    | 1 => pure (t, .vbDefault .path ops)
+    | 2 => pure (t, .vbDefault .form ops)
+    | _ => failure
   | 1 => do
     let fs ← list pField
     pure (t, .struct fs)
@@ -703,6 +747,7 @@ def runLine (line : String) : String :=
   match parseLine pCase line with
   | none => "bad-op"
   | some (t, .vb ff ops) => render ((vbRun (extOf t) ⟨0, ff⟩ ops).flatMap encOut)
+  | some (t, .vbDefault c ops) => render ((vbRun (extOf t) (newBinder c) ops).flatMap encOut)
   | some (t, .struct fs) =>
     let r := structBind (extOf t) fs
     render (encStatus r.1 :: encList encFVal r.2)
